@@ -94,8 +94,17 @@ public:
     galois::optional<value_type> r;
 
     while (true) {
-      if (isEmpty)
-        return r; // empty
+      if (isEmpty) {
+        // The rounds are over. With conflict detection an iteration may
+        // still be retried afterwards (its thread, or the thread its abort
+        // was forwarded to, was waiting in the barrier below while the last
+        // rounds flipped); whatever it pushes is handed out here without
+        // further rounds instead of being left behind.
+        r = wls[0].pop();
+        if (!r)
+          r = wls[1].pop();
+        return r;
+      }
 
       r = wls[tld.round].pop();
       if (r)
